@@ -162,22 +162,20 @@ func (e *Env) Pre(tx *types.Transaction) PreResult {
 // PreTime is the native.Time a pre-execution would see now.
 func (e *Env) PreTime() uint32 { return e.LastTs + 1 }
 
-// ContractState is the committed smart-contract state (bookkeeper, contract, storage,
-// destroyed and EVM account prefixes of the state DB): everything a transaction can change.
-// Block-level system keys (current block, merkle tree) are excluded.
+// ContractState is the committed smart-contract storage of every contract (the ST_STORAGE
+// space read through a fresh overlay, like chain.DumpState; keys start with the contract
+// address): everything a gas-price-0 native invoke can change.
 func (e *Env) ContractState() map[string]string {
-	_, _, dump := e.C.DumpState()
-	out := make(map[string]string, len(dump))
-	for k, v := range dump {
-		if len(k) == 0 {
-			continue
-		}
-		switch k[0] {
-		case 0x03, 0x04, 0x05, 0x06, 0x30, 0x31:
-			out[k] = v
-		}
+	// same content as chain.DumpState (which walks the 256 one-byte prefixes), read with a
+	// single iterator over the whole storage space
+	cache := e.C.Store().GetCacheDB()
+	dump := map[string]string{}
+	it := cache.NewIterator(nil)
+	for ok := it.First(); ok; ok = it.Next() {
+		dump[string(it.Key())] = string(it.Value())
 	}
-	return out
+	it.Release()
+	return dump
 }
 
 // ---------------------------------------------------------------- raw native args
